@@ -62,9 +62,10 @@ MC = {
                 thorough=[cfgd(MaxW=2, Ops={"sigfail", "createfail", "rebuilding"}),
                           cfgd(RF=3, Addr=addrs(4), MaxW=1, Ops={"sigfail"})],
                 mutants=[("electRegistrant", "SignalsMax")]),
-    "C13": dict(quick=[cfgd(RF=1, Addr=addrs(2), MaxW=1, MaxSnap=1, Ops={"snapshot", "snapfail", "cpfail"})],
+    "C13": dict(quick=[cfgd(RF=1, Addr=addrs(2), MaxW=1, MaxSnap=1, Ops={"snapshot", "snapfail", "cpfail", "revert"})],
                 thorough=[cfgd(RF=1, Addr=addrs(2), MaxW=1, MaxSnap=2, Ops={"snapshot", "snapfail", "cpfail"}),
-                          cfgd(MaxW=1, MaxSnap=2, Ops={"snapshot"})],
+                          cfgd(MaxW=1, MaxSnap=2, Ops={"snapshot"}),
+                          cfgd(MaxW=1, MaxSnap=1, Ops={"snapshot", "snapfail", "revert"})],
                 mutants=[("snapNoGate", "SnapNeedsAllRW")]),
     "C18": dict(quick=[cfgd(RF=1, Addr=addrs(2), MaxW=1, Ops={"seterr", "createfail", "resize"}), cfgd(MaxW=1, Ops={"seterr"})],
                 thorough=[cfgd(MaxW=1, Ops={"seterr", "createfail", "read"}),
@@ -347,6 +348,8 @@ def event_to_op(e):
         return {"ev": ev + "OOB", "kind": a["oob"]}
     if ev == "Resize":
         return {"ev": "Resize", "F": a.get("F", [])}
+    if ev == "Revert":
+        return {"ev": "Revert", "name": a["name"], "F": a.get("F", [])}
     if ev in IO_EVS:
         op["F"] = a.get("A", [])
         if a.get("variant"):
@@ -428,11 +431,11 @@ def run(prop, tier, seed, replay=None, embed=False):
                 f.write(json.dumps(rp["scenario"]) + "\n")
             os.makedirs(os.path.join(work, "p0"))
             cmds = [[os.path.join(BUILD, "ctrldrv"), "-in", scf, "-out", os.path.join(work, "t0.ndjson"),
-                     "-work", os.path.join(work, "p0"), "-worker", "1"]]
+                     "-work", os.path.join(work, "p0"), "-worker", str(1 + int(os.environ.get("VERIF_WORKER_OFFSET", "0")))]]
             parts = [os.path.join(work, "t0.ndjson")]
         else:
             nproc = min(NCPU * 2, 32)
-            per = 2 if quick else 24
+            per = 4 if quick else 24
             length = 16 if quick else 30
             walk_files = {}
             directed = [l for l in open(os.path.join(VERIF, "scenarios", "controller_directed.ndjson")).read().split("\n") if l.strip()]
@@ -462,9 +465,10 @@ def run(prop, tier, seed, replay=None, embed=False):
                     rf = [3, 3, 2, 3][i % 4] if prop == "C07" else ([2, 3, 3][i % 3] if prop == "C16" else [1, 2, 3][i % 3])
                 cmd = [os.path.join(BUILD, "ctrldrv"), "-out", out, "-work", pdir, "-gen", str(per),
                        "-len", str(length), "-seed", str(seed * 1000 + i), "-base", str(i * 1000),
-                       "-profile", PROFILE[prop], "-rf", str(rf),
+                       "-profile", os.environ.get("VERIF_DEV_PROFILE") or PROFILE[prop], "-rf", str(rf),
                        # embedded parts get their own loopback subnets (127.(10+worker).x)
-                       "-worker", str(i + 1 + ({"C01": 40, "C07": 60, "C16": 90}.get(prop, 0) if embed else 0))]
+                       "-worker", str(i + 1 + ({"C01": 40, "C07": 60, "C16": 90}.get(prop, 0) if embed else 0)
+                                      + int(os.environ.get("VERIF_WORKER_OFFSET", "0")))]
                 extra = []
                 if not embed:      # hand-written / counterexample-derived interleavings, spread over the workers
                     extra += [l for k, l in enumerate(directed) if k % nproc == i]
